@@ -857,6 +857,13 @@ SINGLE = {"C01": c01, "C02": c02, "C03": c03, "C04": c04, "C05": c05, "C07": c07
 
 
 def check(pid, sc, res, trace):
+    # jobs that were members only while the graph was being inspected, and were removed before the run: none of them runs
+    strangers = {g["name"] for g in (sc.get("late") or {}).get("dropped", [])}
+    ran = sorted({e[3] for e in trace if len(e) > 3 and e[3] in strangers and e[2] in ("create", "begin")})
+    if ran:
+        if pid in ("C01", "C02", "C12"):
+            return ["C02 %s was removed from its scheduler before the run, and is run all the same" % ran[0]]
+        trace = [e for e in trace if not (len(e) > 3 and e[3] in strangers)]
     v = View(sc, res, trace)
     if pid in SINGLE:
         out = SINGLE[pid](v)
